@@ -181,6 +181,8 @@ Definition exc_matches (P : prog) (e : val) (classes : list string) : bool :=
          end
   end.
 
+Definition lookup_fun (P : prog) (g : string) : option fundef := aget g (pfuns P).
+
 Fixpoint drop_until (c : string) (l : list string) : list string :=
   match l with
   | [] => []
@@ -543,7 +545,7 @@ Definition run_beh_step (R : recs) (b : beh) (n : list event) : eres :=
     | BDone h (ORet v) => EOk v (h, n)
     | BDone h (ORaise x) => EExc x (h, n)
     | BCall h g args kw k =>
-        match aget g (pfuns P) with
+        match lookup_fun P g with
         | Some fd =>
             match r_call_fun R None g fd args kw (h, n) with
             | EOk v (h1, n1) => r_run_beh R (k h1 (ORet v)) n1
@@ -557,7 +559,7 @@ Definition run_beh_step (R : recs) (b : beh) (n : list event) : eres :=
 Definition call_value_step (R : recs) (cur : option val) (vf : val) (args : list val) (kw : list (string * val)) (s : st) : eres :=
     match vf with
     | VGlobal g =>
-        match aget g (pfuns P) with
+        match lookup_fun P g with
         | Some fd => r_call_fun R cur g fd args kw s
         | None => r_ocall R g args kw s
         end
